@@ -108,6 +108,7 @@ type drv struct {
 	nw   int
 	snapCtr int
 	curOp Op
+	gone  []string
 }
 
 // quiesce waits until every queued punch has been executed: a sentinel is
@@ -432,21 +433,21 @@ func (d *drv) snaps() []string { // chain snapshots, base..latest
 
 // operation classes of the generator and their weights per profile
 var classes = []string{"write", "read", "fullread", "snapshot", "cleaner", "userdelete", "badremove",
-	"revert", "resize", "close", "reload", "mode", "meta", "punch", "unrebuild"}
+	"revert", "resize", "close", "reload", "mode", "meta", "punch", "unrebuild", "forcedelete"}
 
 var weights = map[string][]int{
 	//             wr  rd  fr  sn  cl  ud  br  rv  rs  cl  rl  mo  me  pu  ur
-	"mixed":      {30, 8, 4, 15, 12, 5, 3, 4, 4, 5, 2, 3, 2, 2, 1},
-	"multiblock": {34, 6, 5, 18, 10, 3, 1, 8, 1, 5, 3, 1, 1, 3, 1},
-	"nopunch":    {30, 8, 4, 15, 12, 5, 3, 4, 4, 5, 2, 3, 2, 0, 1},
-	"cleaner":    {24, 6, 4, 20, 26, 7, 5, 1, 1, 2, 1, 1, 1, 1, 0},
-	"manage":     {14, 4, 3, 18, 10, 8, 8, 10, 6, 6, 4, 4, 4, 1, 0},
-	"resize":     {24, 8, 6, 10, 5, 1, 1, 4, 24, 9, 4, 2, 1, 1, 0},
-	"gate":       {16, 8, 3, 8, 5, 6, 5, 5, 5, 12, 4, 14, 7, 1, 1},
+	"mixed":      {30, 8, 4, 15, 12, 5, 3, 4, 4, 5, 2, 3, 2, 2, 1, 3},
+	"multiblock": {34, 6, 5, 18, 10, 3, 1, 8, 1, 5, 3, 1, 1, 3, 1, 2},
+	"nopunch":    {30, 8, 4, 15, 12, 5, 3, 4, 4, 5, 2, 3, 2, 0, 1, 3},
+	"cleaner":    {24, 6, 4, 20, 26, 7, 5, 1, 1, 2, 1, 1, 1, 1, 0, 8},
+	"manage":     {14, 4, 3, 18, 10, 8, 8, 10, 6, 6, 4, 4, 4, 1, 0, 12},
+	"resize":     {24, 8, 6, 10, 5, 1, 1, 4, 24, 9, 4, 2, 1, 1, 0, 1},
+	"gate":       {16, 8, 3, 8, 5, 6, 5, 5, 5, 12, 4, 14, 7, 1, 1, 2},
 }
 
 // pick returns a value in the historical 0..99 scale used by the switch below
-var thresholds = []int{0, 30, 38, 42, 57, 69, 74, 77, 81, 85, 90, 92, 95, 97, 99}
+var thresholds = []int{0, 30, 38, 42, 57, 69, 74, 77, 81, 85, 90, 92, 95, 97, 99, 100}
 
 func pick(rng *rand.Rand, profile string) int {
 	w, ok := weights[profile]
@@ -483,7 +484,12 @@ func (d *drv) runGenerated(id int, n int, profile string) error {
 	}
 	defer d.finish()
 	steps := 0
+	d.gone = nil
 	do := func(op Op) { d.exec(op); steps++ }
+	if profile == "shapes" {
+		d.runShape(do)
+		return nil
+	}
 	maybeIO := func() {
 		for rng.Intn(3) == 0 {
 			if rng.Intn(3) == 0 {
@@ -533,7 +539,9 @@ func (d *drv) runGenerated(id int, n int, profile string) error {
 		case k < 57: // snapshot
 			d.snapCtr++
 			name := fmt.Sprintf("%c%d", 'a'+rune(rng.Intn(26)), d.snapCtr)
-			if len(snaps) > 0 && rng.Intn(25) == 0 { // duplicate name
+			if len(d.gone) > 0 && rng.Intn(3) == 0 { // a name that was used and removed before
+				name = d.gone[rng.Intn(len(d.gone))]
+			} else if len(snaps) > 0 && rng.Intn(25) == 0 { // duplicate name
 				name = strings.TrimPrefix(snaps[rng.Intn(len(snaps))], "s-")
 			}
 			do(Op{Ev: "Snapshot", Name: name, User: rng.Intn(2) == 0})
@@ -561,6 +569,28 @@ func (d *drv) runGenerated(id int, n int, profile string) error {
 			do(Op{Ev: "Coalesce", Name: victim})
 			maybeIO()
 			do(Op{Ev: "RemoveDisk", Name: victim})
+			d.gone = append(d.gone, strings.TrimPrefix(victim, "s-"))
+		case k == 100 && mode == "RW":
+			// delete an arbitrary eligible middle snapshot outright (prepare, merge, unlink):
+			// eligible = not protected and its merge target is not a retained user snapshot
+			all := d.chain()
+			disks := d.s.Replica().ListDisks()
+			var elig []string
+			for i := 1; i+2 < len(all); i++ {
+				p := disks[rawfs.Real(all[i-1])]
+				if !(p.UserCreated && !p.Removed) {
+					elig = append(elig, all[i])
+				}
+			}
+			if len(elig) == 0 {
+				continue
+			}
+			victim := elig[rng.Intn(len(elig))]
+			do(Op{Ev: "PrepareRemove", Name: victim})
+			maybeIO()
+			do(Op{Ev: "Coalesce", Name: victim})
+			do(Op{Ev: "RemoveDisk", Name: victim})
+			d.gone = append(d.gone, strings.TrimPrefix(victim, "s-"))
 		case k < 74: // user deletion request (mark removed), any member or unknown
 			all := d.chain()
 			name := "s-unknown"
@@ -619,6 +649,8 @@ func (d *drv) runGenerated(id int, n int, profile string) error {
 			}
 		case k < 99:
 			do(Op{Ev: "SetPunch", P: rng.Intn(3) != 0})
+		case k == 100:
+			do(d.genRead(false))
 		default:
 			do(Op{Ev: "SetRebuilding", R: false})
 		}
@@ -632,6 +664,55 @@ func (d *drv) runGenerated(id int, n int, profile string) error {
 	do(Op{Ev: "Open"})
 	do(d.genRead(true))
 	return nil
+}
+
+// runShape: one chain shape (length, which members are user-created, which are marked
+// removed, where the checkpoint is, a data layout) and then cleaner rounds until no
+// candidate is left -- the C11 quantifier, sampled uniformly
+func (d *drv) runShape(do func(Op)) {
+	rng := d.rng
+	L := 3 + rng.Intn(4) // snapshots
+	names := []string{}
+	for i := 0; i < L; i++ {
+		do(d.genWrite(rng.Intn(2) == 0))
+		if rng.Intn(3) == 0 {
+			do(d.genWrite(false))
+		}
+		d.snapCtr++
+		nm := fmt.Sprintf("k%d", d.snapCtr)
+		names = append(names, "s-"+nm)
+		do(Op{Ev: "Snapshot", Name: nm, User: rng.Intn(2) == 0})
+	}
+	do(d.genWrite(false))
+	for _, nm := range names {
+		if rng.Intn(3) == 0 {
+			do(Op{Ev: "PrepareRemove", Name: nm, Bare: rng.Intn(2) == 0})
+		}
+	}
+	do(Op{Ev: "SetCheckpoint", Name: names[len(names)-1-rng.Intn(2)]})
+	do(d.genRead(true))
+	for round := 0; round < 4; round++ {
+		r := d.s.Replica()
+		if r == nil {
+			break
+		}
+		cand, _ := jsync.GetDeleteCandidateChain(r, r.Info().Checkpoint)
+		do(Op{Ev: "CleanerPick"})
+		if len(cand) == 0 {
+			break
+		}
+		victim := rawfs.Norm(cand[0])
+		do(Op{Ev: "PrepareRemove", Name: victim})
+		if rng.Intn(3) == 0 {
+			do(d.genWrite(false))
+		}
+		do(Op{Ev: "Coalesce", Name: victim})
+		do(Op{Ev: "RemoveDisk", Name: victim})
+		do(d.genRead(true))
+	}
+	do(Op{Ev: "Close"})
+	do(Op{Ev: "Open"})
+	do(d.genRead(true))
 }
 
 func main() {
